@@ -49,6 +49,8 @@ TRUSTED = [
     "(supertype chain and all_features), i.e. C10/C11/C12 are trusted there",
 ]
 ASSUMPTIONS = [
+    "user features are not called sofa, xmiID, elements, head or tail (DESIGN section 6: structural names; Cas.add sets any "
+    "attribute called sofa)",
     "documents are closed (doc_ok_xmi): distinct ids, resolvable references; annotations are members of the view of "
     "their own sofa only",
     "feature structures not reachable from any view member are compared with the model only through what references them "
